@@ -219,6 +219,27 @@ def c07_functor_pairs(seed):
   return pairs
 
 
+def c07_named_rotation_pairs(seed):
+  """rules of one predicate listing three named arguments in rotated orders, with the rules permuted"""
+  rnd = random.Random(seed ^ 0x7a07)
+  A = gen.A
+  x, y = Var('x'), Var('y')
+  names = ['a', 'b', 'c']
+  exprs = {'a': x, 'b': y, 'c': rnd.choice([Bin('+', x, y), Bin('-', x, y), Num(7)])}
+  bodies = [A('E', x, y), A('F', x, y), Conj([A('E', y, x), A('G', x)])]
+  rules = []
+  for i in range(rnd.choice([2, 3])):
+    k = (i * (1 + seed % 2)) % 3
+    order = names[k:] + names[:k]
+    rules.append(Rule('P', [], [(n, exprs[n]) for n in order], body=bodies[i]))
+  rules.append(Rule('Q', [x, y], body=Conj([Atom('P', [], [('a', x), ('c', y)]), Cmp('!=', x, y)])))
+  prog = Program(rules, [], gen.EXT)
+  prog2 = Program(list(reversed(rules[:-1])) + rules[-1:], [], gen.EXT)
+  tables = sorted({t for t in ('E', 'F', 'G') if (t + '(') in prog.text()})
+  return [dict(a=Side(prog.text(), p, label='original'), b=Side(prog2.text(), p, label='rules'),
+               tables=tables, K=2, strings_list=[], label='named_rotation/%s/rules' % p) for p in ('P', 'Q')]
+
+
 def c07_pairs(seed):
   rnd = random.Random(seed ^ 0xc07)
   case = base_case(seed)
